@@ -54,7 +54,10 @@ def run(tier, seed):
             {"prog": "arena", "strategy": "random", "runs": (60, 800), "args": ["--rate", "3"], "env": {"MIMALLOC_PURGE_DELAY": "0"}},
             # a limit on the segments per thread: a thread at its limit visits abandoned segments without adopting them (they must stay abandoned)
             {"prog": "exit", "strategy": "random", "runs": (80, 1000), "args": ["--rate", "3", "--size", "150000", "200000"], "env": {"MIMALLOC_TARGET_SEGMENTS_PER_THREAD": "1"}},
-            {"prog": "exit", "strategy": "pct", "runs": (40, 600), "args": ["--size", "600000", "1048576"], "env": {"MIMALLOC_TARGET_SEGMENTS_PER_THREAD": "2"}}]
+            {"prog": "exit", "strategy": "pct", "runs": (40, 600), "args": ["--size", "600000", "1048576"], "env": {"MIMALLOC_TARGET_SEGMENTS_PER_THREAD": "2"}},
+            # (blocks of 9-12 MiB: every second allocation needs a fresh segment, i.e. looks at the abandoned ones first)
+            {"prog": "exit", "strategy": "random", "runs": (50, 600), "args": ["--rate", "3", "--size", "9000000", "12000000"], "env": {"MIMALLOC_TARGET_SEGMENTS_PER_THREAD": "1"}, "tag": "tsptbig"},
+            {"prog": "exit", "strategy": "random", "runs": (40, 500), "args": ["--size", "9000000", "12000000"], "env": {"MIMALLOC_TARGET_SEGMENTS_PER_THREAD": "3"}, "tag": "tsptbig"}]
     V, cov2 = concfam.run_conc("C13", tier, seed, jobs, {"DestructiveAvoidsLive", "LiveAccessible", "ContentsKept.gen", "ContentsKept.bytes", "NoOverlap", "ZeroOK", "Invariant.Inv"},
                                mc=("MiSegment", ("MiSegment_mc.cfg", "MiSegment_mc.cfg")), guided_progs=(), V=V, finish=False)
     cov["concurrent_purging"] = {k: cov2[k] for k in ("traces_validated_against_impl", "trace_events_validated", "programs", "strategies") if k in cov2}
